@@ -88,7 +88,7 @@ func TestC02(t *testing.T) {
 	RunProperty(t, Property[HistCase]{
 		ID:          "C02",
 		Rule:        "rapid-generated histories on 2-4 level layouts (tight shapes: points==ratio, coarser ring barely longer; all six methods; xff in {0,1,k/ratio,random}); after every write the whole physical content of every archive and its full-retention fetch are compared with the reference model's propagation. Non-trivial: some coarser slot was recomputed from >=2 known values, or xff decided 'skip' with >=1 known value, or a coarser interval had zero known values. Distinct = hash of the whole case. Cases meeting the float32-vs-exact xff boundary (zone Z1) are discarded and counted.",
-		Assumptions: []string{"zone Z7 clocks", "finite values only (no NaN/Inf inputs to aggregation, Z8)", "Z2: same-slot points with distinct timestamps supplied in time order", "sum/average accumulate left to right in float64 (the statement's 'in time order')"},
+		Assumptions: []string{"zone Z7 clocks", "values incl. +-Inf, +-MaxFloat64 and NaN-valued points (a stored NaN is a known value of its interval); NaN is kept away from max / min aggregation, whose comparison semantics the statement does not define (Z8)", "Z2: same-slot points with distinct timestamps supplied in time order", "sum/average accumulate left to right in float64 (the statement's 'in time order')"},
 		Gen: func(t *rapid.T) HistCase {
 			o := defaultLayoutOpts()
 			o.MinArchives = 2
